@@ -36,6 +36,9 @@ import (
 var only = flag.Int("n", -1, "apply only at the k-th applicable site")
 var tname = flag.String("t", "", "transform")
 var list = flag.Bool("list", false, "list transforms")
+var rootDir = flag.String("root", "", "typed transforms: module root")
+var pkgDir = flag.String("dir", "", "typed transforms: package directory relative to the root")
+var outDir = flag.String("out", "", "typed transforms: output directory")
 
 var counter int
 
@@ -159,6 +162,56 @@ func declares(b *ast.BlockStmt) bool {
 		case *ast.LabeledStmt:
 			return true
 		}
+	}
+	return false
+}
+
+// hasBareBreak: the statements contain an unlabeled break that would bind to an enclosing switch/for (not one nested
+// in an inner for / switch / select of their own).
+func hasBareBreak(list []ast.Stmt) bool {
+	found := false
+	var walk func(n ast.Node, depth int)
+	walk = func(n ast.Node, depth int) {
+		ast.Inspect(n, func(m ast.Node) bool {
+			if m == nil || found {
+				return false
+			}
+			switch x := m.(type) {
+			case *ast.ForStmt, *ast.RangeStmt, *ast.SwitchStmt, *ast.TypeSwitchStmt, *ast.SelectStmt:
+				if m != n {
+					return false // a break inside binds to it
+				}
+			case *ast.FuncLit:
+				return false
+			case *ast.BranchStmt:
+				if x.Tok == token.BREAK && x.Label == nil {
+					found = true
+				}
+			}
+			return true
+		})
+	}
+	for _, s := range list {
+		walk(s, 0)
+	}
+	return found
+}
+
+func hasFallthrough(list []ast.Stmt) bool {
+	for _, s := range list {
+		if b, ok := s.(*ast.BranchStmt); ok && b.Tok == token.FALLTHROUGH {
+			return true
+		}
+	}
+	return false
+}
+
+func simpleTag(e ast.Expr) bool {
+	switch x := e.(type) {
+	case *ast.Ident:
+		return true
+	case *ast.SelectorExpr:
+		return simpleTag(x.X)
 	}
 	return false
 }
@@ -313,6 +366,109 @@ var transforms = map[string]func(f *ast.File){
 			return true
 		})
 	},
+	// switch2if: a switch without init, fallthrough or bare break becomes an if / else-if chain. A tagged switch needs a
+	// side-effect free tag (identifier or selector); `case a, b:` becomes `tag == a || tag == b`.
+	"switch2if": func(f *ast.File) {
+		rewriteStmtLists(f, func(list []ast.Stmt, k int, elseIf map[*ast.IfStmt]bool) []ast.Stmt {
+			sw, ok := list[k].(*ast.SwitchStmt)
+			if !ok || sw.Init != nil || len(sw.Body.List) == 0 {
+				return nil
+			}
+			if sw.Tag != nil && !simpleTag(sw.Tag) {
+				return nil
+			}
+			var def *ast.CaseClause
+			var cases []*ast.CaseClause
+			for _, c := range sw.Body.List {
+				cc := c.(*ast.CaseClause)
+				if hasFallthrough(cc.Body) || hasBareBreak(cc.Body) {
+					return nil
+				}
+				if cc.List == nil {
+					def = cc
+					if cc != sw.Body.List[len(sw.Body.List)-1] {
+						return nil // a default in the middle: keep it simple
+					}
+				} else {
+					cases = append(cases, cc)
+				}
+			}
+			if len(cases) == 0 {
+				return nil
+			}
+			if !want() {
+				return nil
+			}
+			cond := func(cc *ast.CaseClause) ast.Expr {
+				var e ast.Expr
+				for _, v := range cc.List {
+					var t ast.Expr = v
+					if sw.Tag != nil {
+						t = &ast.BinaryExpr{X: sw.Tag, Op: token.EQL, Y: v}
+					} else if _, isBin := v.(*ast.BinaryExpr); isBin && len(cc.List) > 1 {
+						t = &ast.ParenExpr{X: v}
+					}
+					if e == nil {
+						e = t
+					} else {
+						e = &ast.BinaryExpr{X: e, Op: token.LOR, Y: t}
+					}
+				}
+				return e
+			}
+			var first, cur *ast.IfStmt
+			for _, cc := range cases {
+				n := &ast.IfStmt{Cond: cond(cc), Body: &ast.BlockStmt{List: cc.Body}}
+				if first == nil {
+					first = n
+				} else {
+					cur.Else = n
+				}
+				cur = n
+			}
+			if def != nil {
+				cur.Else = &ast.BlockStmt{List: def.Body}
+			}
+			return []ast.Stmt{first}
+		})
+	},
+	// if2switch: an if / else-if chain (no init statements, no bare break in the bodies) becomes a tagless switch.
+	"if2switch": func(f *ast.File) {
+		rewriteStmtLists(f, func(list []ast.Stmt, k int, elseIf map[*ast.IfStmt]bool) []ast.Stmt {
+			i, ok := list[k].(*ast.IfStmt)
+			if !ok || elseIf[i] || i.Else == nil {
+				return nil
+			}
+			var clauses []ast.Stmt
+			n := 0
+			for cur := i; cur != nil; {
+				if cur.Init != nil || hasBareBreak(cur.Body.List) {
+					return nil
+				}
+				clauses = append(clauses, &ast.CaseClause{List: []ast.Expr{cur.Cond}, Body: cur.Body.List})
+				n++
+				switch e := cur.Else.(type) {
+				case *ast.IfStmt:
+					cur = e
+				case *ast.BlockStmt:
+					if hasBareBreak(e.List) {
+						return nil
+					}
+					clauses = append(clauses, &ast.CaseClause{Body: e.List})
+					cur = nil
+				default:
+					cur = nil
+				}
+			}
+			if n < 2 {
+				return nil
+			}
+			if !want() {
+				return nil
+			}
+			return []ast.Stmt{&ast.SwitchStmt{Body: &ast.BlockStmt{List: clauses}}}
+		})
+	},
 	"hoistcond": func(f *ast.File) {
 		rewriteStmtLists(f, func(list []ast.Stmt, k int, elseIf map[*ast.IfStmt]bool) []ast.Stmt {
 			i, ok := list[k].(*ast.IfStmt)
@@ -329,6 +485,31 @@ var transforms = map[string]func(f *ast.File){
 			name := fmt.Sprintf("zzc%d", counter)
 			as := &ast.AssignStmt{Lhs: []ast.Expr{ast.NewIdent(name)}, Tok: token.DEFINE, Rhs: []ast.Expr{i.Cond}}
 			i.Cond = ast.NewIdent(name)
+			return []ast.Stmt{as, i}
+		})
+	},
+	// condclosure: the condition of an if moves into a local predicate closure called in its place. Every variable the
+	// condition reads becomes a captured variable (a by-reference cell in SSA when it is assigned elsewhere).
+	"condclosure": func(f *ast.File) {
+		rewriteStmtLists(f, func(list []ast.Stmt, k int, elseIf map[*ast.IfStmt]bool) []ast.Stmt {
+			i, ok := list[k].(*ast.IfStmt)
+			if !ok || i.Init != nil || elseIf[i] {
+				return nil
+			}
+			switch i.Cond.(type) {
+			case *ast.Ident, *ast.BasicLit:
+				return nil
+			}
+			if !want() {
+				return nil
+			}
+			name := fmt.Sprintf("zzf%d", counter)
+			lit := &ast.FuncLit{
+				Type: &ast.FuncType{Params: &ast.FieldList{}, Results: &ast.FieldList{List: []*ast.Field{{Type: ast.NewIdent("bool")}}}},
+				Body: &ast.BlockStmt{List: []ast.Stmt{&ast.ReturnStmt{Results: []ast.Expr{i.Cond}}}},
+			}
+			as := &ast.AssignStmt{Lhs: []ast.Expr{ast.NewIdent(name)}, Tok: token.DEFINE, Rhs: []ast.Expr{lit}}
+			i.Cond = &ast.CallExpr{Fun: ast.NewIdent(name)}
 			return []ast.Stmt{as, i}
 		})
 	},
@@ -364,10 +545,21 @@ func main() {
 		for n := range transforms {
 			ns = append(ns, n)
 		}
+		for n := range typedTransforms {
+			ns = append(ns, n+" (typed)")
+		}
 		sort.Strings(ns)
 		for _, n := range ns {
 			fmt.Println(n)
 		}
+		return
+	}
+	if _, typed := typedTransforms[*tname]; typed {
+		if *rootDir == "" || *pkgDir == "" || *outDir == "" {
+			fmt.Fprintln(os.Stderr, "usage: refmut -t <typed transform> -root <module root> -dir <package dir> -out <dir>")
+			os.Exit(2)
+		}
+		runTyped(*tname, *rootDir, *pkgDir, *outDir)
 		return
 	}
 	t, ok := transforms[*tname]
